@@ -334,6 +334,7 @@ func (d *DataChannel) onMessage(msg DataChannelMessage) {
 }
 
 func (d *DataChannel) handleOpen(dc *datachannel.DataChannel, isRemote, isAlreadyNegotiated bool) {
+	verifYield("dc.handleOpen.enter", d)
 	d.mu.Lock()
 	if d.isGracefulClosed { // The channel was closed during the connecting state
 		d.mu.Unlock()
@@ -348,7 +349,9 @@ func (d *DataChannel) handleOpen(dc *datachannel.DataChannel, isRemote, isAlread
 	bufferedAmountLowThreshold := d.bufferedAmountLowThreshold
 	onBufferedAmountLow := d.onBufferedAmountLow
 	d.mu.Unlock()
+	verifYield("dc.handleOpen.unlocked", d)
 	d.setReadyState(DataChannelStateOpen)
+	verifYield("dc.handleOpen.stored", d)
 
 	// Fire the OnOpen handler immediately not using pion/datachannel
 	// * detached datachannels have no read loop, the user needs to read and query themselves
@@ -402,6 +405,7 @@ func (d *DataChannel) onError(err error) {
 }
 
 func (d *DataChannel) readLoop() {
+	defer verifYield("dc.readLoop.exit", d)
 	defer func() {
 		d.mu.Lock()
 		readLoopActive := d.readLoopActive
@@ -426,6 +430,7 @@ func (d *DataChannel) readLoop() {
 				)
 			}
 
+			verifYield("dc.readLoop.ending", d)
 			d.setReadyState(DataChannelStateClosed)
 			if !errors.Is(err, io.EOF) {
 				d.onError(err)
@@ -563,10 +568,12 @@ func (d *DataChannel) close(shouldGracefullyClose bool) error {
 	}
 	haveSctpTransport := d.dataChannel != nil
 	d.mu.Unlock()
+	verifYield("dc.close.marked", d)
 
 	if d.ReadyState() == DataChannelStateClosed {
 		return nil
 	}
+	verifYield("dc.close.checked", d)
 
 	d.setReadyState(DataChannelStateClosing)
 	if !haveSctpTransport {
@@ -770,4 +777,5 @@ func (d *DataChannel) collectStats(collector *statsReportCollector) {
 
 func (d *DataChannel) setReadyState(r DataChannelState) {
 	d.readyState.Store(r)
+	verifEvent("dc.state", d, r)
 }
